@@ -186,6 +186,7 @@ func runQuiet(p *Prog, pc *propCheck) (c *Ctx, panicked any) {
 	func() {
 		defer func() { panicked = recover() }()
 		pc.Run(c)
+		genericPack(c)
 	}()
 	return
 }
